@@ -175,7 +175,10 @@ def items(events, case="lower", trailing_dangling=False):
         elif k == "generic":
             cmd(ev.get("cmd", "message"), ev.get("args", ["STATUS", '"text %d"' % i]))
         elif k == "cmake_parse_arguments":
-            cmd("cmake_parse_arguments", ["ARG_%d" % i, '""', '""', '""', "${ARGN}"])
+            if ev.get("argv") is not None:      # the PARSE_ARGV signature
+                cmd("cmake_parse_arguments", ["PARSE_ARGV", str(ev["argv"]), "ARG_%d" % i, '""', '""', '""'])
+            else:
+                cmd("cmake_parse_arguments", ["ARG_%d" % i, '""', '""', '""', "${ARGN}"])
         elif k == "comment":
             out.append(("comment", ev.get("text", COMMENT_SHAPES[ev.get("shape", 0) % len(COMMENT_SHAPES)])))
         elif k == "module":
